@@ -41,7 +41,7 @@ pub fn drive(t: &mut Tracer, r: &mut Rng, n: usize) {
                 for (k, x) in v.as_object().unwrap() { if r.range(0, 99) < keep { p.insert(k.clone(), x.clone()); } }
                 t.call("Duration.fromPartial", json!({"p": Value::Object(p)})); }
             2 => { let d = if r.chance(1, 3) { cal_dur(r) } else { time_day_dur(r) };
-                   t.call("Duration.negated", json!({"recv": d.clone()})); t.call("Duration.abs", json!({"recv": d.clone()})); t.call("Duration.sign", json!({"recv": d})); }
+                   t.call("Duration.negated", json!({"recv": d.clone()})); t.call("Duration.abs", json!({"recv": d.clone()})); t.call("Duration.sign", json!({"recv": d.clone()})); t.call("Duration.timeInRange", json!({"recv": d})); }
             3 | 4 => { let a = if r.chance(1, 8) { cal_dur(r) } else { time_day_dur(r) }; let b = if r.chance(1, 8) { cal_dur(r) } else { time_day_dur(r) };
                    let op = if r.chance(1, 2) { "Duration.add" } else { "Duration.subtract" };
                    t.call(op, json!({"recv": a.clone(), "other": b.clone()}));
